@@ -40,6 +40,8 @@ type target struct {
 	cases            bool // the function is an event loop `for { select { case ...: body } }`: one function per case
 	inner            bool // with iter: the loop is the endless loop NESTED in the function's outer endless loop
 	iter             bool // translate ONE ITERATION of the function's (single, conditional) top-level loop, locals as parameters
+	ranges           bool // `for _, v := range X { body }` inside: the body becomes its own function Key$rangeN (of the function's
+	// parameters, v and the variables of the function it mentions), the loop itself the logged call $rangeN(X)
 }
 
 // the decision functions covered (file relative to the repository root, receiver type, function name)
@@ -89,6 +91,9 @@ var targets = []target{
 	{file: "block/pending_base.go", recv: "pendingBase", name: "setLastSubmittedHeight"},
 	{file: "block/submitter.go", name: "submitToDA", iter: true},
 	{file: "block/da_includer.go", recv: "Manager", name: "DAIncluderLoop", iter: true, inner: true},
+	{file: "block/retriever.go", recv: "Manager", name: "processNextDAHeaderAndData", pre: true},
+	{file: "block/retriever.go", recv: "Manager", name: "processNextDAHeaderAndData", iter: true, ranges: true},
+	{file: "block/retriever.go", recv: "Manager", name: "fetchBlobs"},
 	{file: "block/aggregation.go", recv: "Manager", name: "lazyAggregationLoop", cases: true},
 	{file: "block/aggregation.go", recv: "Manager", name: "normalAggregationLoop", cases: true},
 	{file: "block/aggregation.go", recv: "Manager", name: "produceBlock"},
@@ -137,6 +142,95 @@ func printable(s string) string {
 	return b.String()
 }
 
+// emitRanges writes one function per range loop collected while the function was translated (target option `ranges`):
+// Key$rangeN, of the function's parameters, the loop variable and the variables of the function the body mentions;
+// `continue` is its return, its end is its return; anything else that leaves the body (`break`, `return`) is unsupported.
+func (t *tr) emitRanges(b *strings.Builder, tg target, key, ident, recv string, params []string, fd *ast.FuncDecl) []string {
+	var table []string
+	bodies := t.rangeBodies
+	t.rangeBodies = nil
+	for i, rs := range bodies {
+		isParam := map[string]bool{}
+		for _, p := range params {
+			isParam[p] = true
+		}
+		val := rs.Value.(*ast.Ident).Name
+		// variables defined in the function outside this body, in order of definition
+		var defined []string
+		seen := map[string]bool{val: true}
+		ast.Inspect(fd.Body, func(n ast.Node) bool {
+			if n == ast.Node(rs.Body) {
+				return false
+			}
+			add := func(name string) {
+				if name != "_" && !seen[name] && !isParam[q(name)] {
+					seen[name] = true
+					defined = append(defined, name)
+				}
+			}
+			switch x := n.(type) {
+			case *ast.AssignStmt:
+				if x.Tok == token.DEFINE {
+					for _, l := range x.Lhs {
+						if id, ok := l.(*ast.Ident); ok {
+							add(id.Name)
+						}
+					}
+				}
+			case *ast.ValueSpec:
+				for _, nm := range x.Names {
+					add(nm.Name)
+				}
+			}
+			return true
+		})
+		used := map[string]bool{}
+		ok := true
+		ast.Inspect(rs.Body, func(n ast.Node) bool {
+			switch x := n.(type) {
+			case *ast.Ident:
+				used[x.Name] = true
+			case *ast.ReturnStmt:
+				ok = false
+			case *ast.BranchStmt:
+				if x.Tok != token.CONTINUE || x.Label != nil {
+					ok = false
+				}
+			case *ast.ForStmt, *ast.RangeStmt, *ast.FuncLit:
+				ok = false
+			}
+			return true
+		})
+		ps := append([]string{}, params...)
+		ps = append(ps, q(val))
+		var extra []string
+		for _, d := range defined {
+			if used[d] {
+				ps = append(ps, q(d))
+				extra = append(extra, d)
+			}
+		}
+		rid := fmt.Sprintf("%s_range%d", ident, i+1)
+		rkey := fmt.Sprintf("%s$range%d", key, i+1)
+		var out []string
+		if ok {
+			t.inRange = true
+			saveE, saveB := t.inEndless, t.breakLocals
+			t.inEndless, t.breakLocals = false, ""
+			out = append(out, t.stmts(rs.Body.List)...)
+			t.inEndless, t.breakLocals = saveE, saveB
+			t.inRange = false
+			out = append(out, "(SReturn [])")
+		} else {
+			out = append(out, "(SUnknown "+q("return / break / loop inside a range body")+")")
+		}
+		fmt.Fprintf(b, "(* %s: the body of range loop %d of %s (over %s); parameters: the function's, %s, then: %s *)\nDefinition %s : gfun := {| f_recv := %s; f_params := %s; f_body :=\n  %s |}.\n\n",
+			tg.file, i+1, key, printable(text(rs.X)), val, strings.Join(extra, ", "), rid, recv, list(ps), list(out))
+		table = append(table, "("+q(rkey)+", "+rid+")")
+	}
+	return table
+}
+
 func list(xs []string) string { return "[" + strings.Join(xs, "; ") + "]" }
 
 type tr struct {
@@ -146,6 +240,9 @@ type tr struct {
 	inEndless bool               // inside the body of an endless loop translated as one iteration: `continue` = return $continue
 	nresults int                 // number of results of the function being translated
 	goTmps  map[string][]string // errgroup variable -> temporaries holding the results of its g.Go(func) bodies
+	ranges  bool                // range loops become calls; their bodies are collected in rangeBodies
+	inRange bool                // inside a range body translated as a function: `continue` = return
+	rangeBodies []*ast.RangeStmt
 }
 
 func (t *tr) fresh() int { t.n++; return t.n }
@@ -318,6 +415,14 @@ func (t *tr) expr(e ast.Expr) string {
 					// an error that WRAPS another (%w as the last verb) keeps its identity for errors.Is
 					if bl, ok := x.Args[0].(*ast.BasicLit); ok && strings.HasSuffix(strings.Trim(bl.Value, "\"`"), "%w") {
 						return "(ECall " + q("fmt.Errorf%w") + " [" + t.expr(x.Args[len(x.Args)-1]) + "])"
+					}
+					// ... and so does one that wraps a sentinel with %w as its FIRST verb ("%w: %s")
+					if bl, ok := x.Args[0].(*ast.BasicLit); ok {
+						f := strings.Trim(bl.Value, "\"`")
+						_, sentinel := x.Args[1].(*ast.SelectorExpr) // a package-level sentinel (coreda.ErrX): its identity and text matter
+						if i := strings.Index(f, "%"); i >= 0 && strings.HasPrefix(f[i:], "%w") && sentinel {
+							return "(ECall " + q("fmt.Errorf%w") + " [" + t.expr(x.Args[1]) + "])"
+						}
 					}
 				}
 				if name == "fmt.Errorf" || name == "errors.New" || name == "fmt.Printf" {
@@ -590,6 +695,9 @@ func (t *tr) stmt(s ast.Stmt) string {
 		if id, ok := x.Call.Fun.(*ast.Ident); ok && id.Name == "zeroBytes" && len(x.Call.Args) == 1 {
 			return "(SSkip " + q("defer zero") + ")" // the secret is wiped when the function returns
 		}
+		if id, ok := x.Call.Fun.(*ast.Ident); ok && len(x.Call.Args) == 0 && strings.HasSuffix(strings.ToLower(id.Name), "cancel") {
+			return "(SSkip " + q("cancel") + ")" // the cancel function of a derived context, released on return
+		}
 		if id, ok := x.Call.Fun.(*ast.Ident); ok && id.Name == "close" && len(x.Call.Args) == 1 {
 			return "(SSkip " + q("defer close") + ")" // closing a local channel when the loop ends
 		}
@@ -844,11 +952,22 @@ func (t *tr) stmt(s ast.Stmt) string {
 		if x.Tok == token.BREAK && x.Label == nil && t.breakLocals != "" {
 			return t.breakLocals
 		}
+		if x.Tok == token.CONTINUE && x.Label == nil && t.inRange {
+			return "(SReturn [])"
+		}
 		if x.Tok == token.CONTINUE && x.Label == nil && t.inEndless {
 			return "(SReturn [(EVar " + q("$continue") + ")])"
 		}
 		return "(SUnknown " + q("branch "+text(x)) + ")"
-	case *ast.ForStmt, *ast.RangeStmt:
+	case *ast.RangeStmt:
+		if t.ranges && !t.inRange && x.Value != nil && (x.Key == nil || text(x.Key) == "_") {
+			if _, ok := x.Value.(*ast.Ident); ok {
+				t.rangeBodies = append(t.rangeBodies, x)
+				return fmt.Sprintf("(SExpr (ECall %s [%s]))", q(fmt.Sprintf("$range%d", len(t.rangeBodies))), t.expr(x.X))
+			}
+		}
+		return "(SUnknown " + q("loop") + ")"
+	case *ast.ForStmt:
 		return "(SUnknown " + q("loop") + ")"
 	case *ast.ReturnStmt:
 		// `return x.M(...)` in a function with ONE result: the call is made first (it may be a call with an effect,
@@ -876,7 +995,7 @@ func (t *tr) stmt(s ast.Stmt) string {
 }
 
 // effectful methods that occur in conditions
-var effectful = map[string]bool{"CompareAndSwap": true}
+var effectful = map[string]bool{"CompareAndSwap": true, "handlePotentialHeader": true}
 
 func hoistable(e ast.Expr) (*ast.CallExpr, bool) {
 	neg := false
@@ -1022,6 +1141,20 @@ func main() {
 						}
 					}
 				}
+				if ds, ok := st.(*ast.DeclStmt); ok {
+					if gd, ok := ds.Decl.(*ast.GenDecl); ok && gd.Tok == token.VAR {
+						for _, sp := range gd.Specs {
+							if vs, ok := sp.(*ast.ValueSpec); ok {
+								for _, n := range vs.Names {
+									if n.Name != "_" && !seen[n.Name] {
+										seen[n.Name] = true
+										locals = append(locals, n.Name)
+									}
+								}
+							}
+						}
+					}
+				}
 			}
 			preIdent := ident + "_pre"
 			if !found {
@@ -1147,6 +1280,19 @@ func main() {
 					loop = fs
 					break
 				}
+				if fs, ok := st.(*ast.ForStmt); ok && fs.Cond != nil && !tg.inner {
+					// `for i := e; cond; post`: i is one more local (its initial value is the caller's business, as for the
+					// other locals), post runs before `return $continue`
+					if as, ok := fs.Init.(*ast.AssignStmt); ok && as.Tok == token.DEFINE {
+						for _, l := range as.Lhs {
+							if id, ok := l.(*ast.Ident); ok {
+								addLocal(id.Name)
+							}
+						}
+						loop = fs
+						break
+					}
+				}
 				switch x := st.(type) {
 				case *ast.AssignStmt:
 					if x.Tok == token.DEFINE {
@@ -1184,7 +1330,14 @@ func main() {
 					} else if x.Tok != token.FALLTHROUGH {
 						plain = false
 					}
-				case *ast.ForStmt, *ast.RangeStmt, *ast.SwitchStmt, *ast.SelectStmt:
+				case *ast.RangeStmt:
+					if tg.ranges {
+						return false // translated on its own
+					}
+					if tg.inner {
+						plain = false
+					}
+				case *ast.ForStmt, *ast.SwitchStmt, *ast.SelectStmt:
 					if tg.inner {
 						plain = false // a `break` in there would mean something else
 					}
@@ -1206,10 +1359,14 @@ func main() {
 			}
 			t.breakLocals = "(SReturn ((EVar " + q("$break") + ") :: " + list(lv) + "))"
 			defer func() { t.breakLocals = "" }()
+			t.ranges = tg.ranges
 			if plain {
 				out = append(out, t.stmts(loop.Body.List)...)
 			} else {
 				out = append(out, "(SUnknown "+q("break / continue / label inside the loop")+")")
+			}
+			if loop.Post != nil {
+				out = append(out, t.stmt(loop.Post))
 			}
 			out = append(out, "(SReturn ((EVar "+q("$continue")+") :: "+list(lv)+"))")
 			var ps []string
@@ -1220,9 +1377,12 @@ func main() {
 			fmt.Fprintf(&b, "(* %s: one iteration of the loop of %s; the locals declared before the loop are parameters: %s *)\nDefinition %s : gfun := {| f_recv := %s; f_params := %s; f_body :=\n  %s |}.\n\n",
 				tg.file, key, strings.Join(locals, ", "), iterIdent, recv, list(ps), list(out))
 			table = append(table, "("+q(iterKey)+", "+iterIdent+")")
+			t.breakLocals = ""
+			table = append(table, t.emitRanges(&b, tg, key, ident, recv, params, fd)...)
 			continue
 		}
 		t.nresults = 0
+		t.ranges = tg.ranges
 		if fd.Type.Results != nil {
 			for _, r := range fd.Type.Results.List {
 				if len(r.Names) == 0 {
@@ -1235,6 +1395,7 @@ func main() {
 		fmt.Fprintf(&b, "(* %s: %s *)\nDefinition %s : gfun := {| f_recv := %s; f_params := %s; f_body :=\n  %s |}.\n\n",
 			tg.file, key, ident, recv, list(params), t.body(fd.Body))
 		table = append(table, "("+q(key)+", "+ident+")")
+		table = append(table, t.emitRanges(&b, tg, key, ident, recv, params, fd)...)
 	}
 	fmt.Fprintf(&b, "Definition gen_funs : list (string * gfun) :=\n  [%s].\n", strings.Join(table, ";\n   "))
 	if err := os.WriteFile(out, []byte(b.String()), 0o644); err != nil {
